@@ -20,8 +20,13 @@ class Frame:
 
 class CtxMixin:
     def init_ctx(self):
-        self.solver = z3.Solver()
+        self.solver = z3.Solver()          # quantifier-free part of the path
         self.solver.set('timeout', FEAS_TIMEOUT_MS)
+        self.full = z3.Solver()            # whole path, E-matching only (fast unsat)
+        self.full.set('timeout', 1500)
+        self.full.set('smt.mbqi', False)
+        self.nquant = 0
+        self.pcq = []
         self.pc = []
         self.frames = []
         self.fresh_counter = 0
@@ -35,14 +40,26 @@ class CtxMixin:
         return len(self.pc)
 
     def pc_push(self, f):
+        q = has_quant(f)
         self.pc.append(f)
-        self.solver.push()
-        self.solver.add(f)
+        self.pcq.append(q)
+        self.full.push()
+        self.full.add(f)
+        if q:
+            self.nquant += 1
+        else:
+            self.solver.push()
+            self.solver.add(f)
 
     def pc_reset(self, mark):
         while len(self.pc) > mark:
             self.pc.pop()
-            self.solver.pop()
+            q = self.pcq.pop()
+            self.full.pop()
+            if q:
+                self.nquant -= 1
+            else:
+                self.solver.pop()
 
     def assume(self, f):
         """add a fact to the current path (kept when leaves are merged)"""
@@ -56,9 +73,20 @@ class CtxMixin:
             self.frames[-1].facts.append(f)
 
     def check_sat(self, *extra):
-        r = STATS.timed(lambda: self.solver.check(*extra))
-        if r == z3.unknown:
-            STATS.unknown += 1
+        """unsat only if certainly infeasible; quantified facts are used through
+        E-matching only (an `unknown` there counts as feasible)"""
+        if any(has_quant(e) for e in extra):
+            r = z3.unknown
+        else:
+            r = STATS.timed(lambda: self.solver.check(*extra))
+        if r == z3.unsat:
+            return r
+        if self.nquant or r == z3.unknown:
+            r2 = STATS.timed(lambda: self.full.check(*extra))
+            if r2 == z3.unsat:
+                return r2
+            if r == z3.unknown:
+                STATS.unknown += 1
         return r
 
     def feasible(self, f):
@@ -166,3 +194,21 @@ class CtxMixin:
             self.frames.pop()
             self.fresh_counter = maxc
         return leaves
+
+
+_hq_cache = {}
+
+
+def has_quant(t):
+    if not z3.is_expr(t):
+        return False
+    k = t.get_id()
+    r = _hq_cache.get(k)
+    if r is not None:
+        return r
+    if z3.is_quantifier(t):
+        r = True
+    else:
+        r = any(has_quant(c) for c in t.children())
+    _hq_cache[k] = r
+    return r
